@@ -62,9 +62,10 @@ Proof.
     { apply sort_entries_sorted. unfold img. rewrite NoDup_map_img_nentry. exact Hd. }
     split.
     + change (norm (TMap (sort_entries (map nentry m)))) with (TMap (sort_entries (map nentry (sort_entries (map nentry m))))).
-      f_equal. rewrite <- (sort_entries_map nentry) by (intro x; apply norm_prim_bytes).
-      rewrite map_map. rewrite (sort_entries_id _ Hsorted).
-      f_equal. apply map_ext_in'. intros e He. unfold nentry. cbn [fst snd]. rewrite norm_prim_idem. rewrite (proj1 (Hv e He)). reflexivity.
+      f_equal. rewrite (sort_entries_map nentry (sort_entries (map nentry m))) by (intro x; apply norm_prim_bytes).
+      rewrite (sort_entries_id _ Hsorted).
+      rewrite <- (sort_entries_map nentry (map nentry m)) by (intro x; apply norm_prim_bytes).
+      rewrite map_map. f_equal. apply map_ext_in'. intros e He. unfold nentry. cbn [fst snd]. rewrite norm_prim_idem. rewrite (proj1 (Hv e He)). reflexivity.
     + rewrite !enc_map. rewrite sort_entries_length, map_length. f_equal. f_equal.
       rewrite (sort_entries_id _ Hsorted).
       rewrite (sort_entries_map nentry) by (intro x; apply norm_prim_bytes).
